@@ -42,7 +42,9 @@ func builtinArrayToLocaleString(call FunctionCall) Value {
 	if length == 0 {
 		return stringValue("")
 	}
-	stringList := make([]string, 0, length)
+	// grows with the iteration: length is under the control of the script (up
+	// to 2^32-1) and reading an element may end the iteration early
+	stringList := make([]string, 0, min(length, 1<<10))
 	for index := range length {
 		value := thisObject.get(arrayIndexToString(index))
 		stringValue := ""
@@ -150,7 +152,9 @@ func builtinArrayJoin(call FunctionCall) Value {
 	if length == 0 {
 		return stringValue("")
 	}
-	stringList := make([]string, 0, length)
+	// grows with the iteration: length is under the control of the script (up
+	// to 2^32-1) and reading an element may end the iteration early
+	stringList := make([]string, 0, min(length, 1<<10))
 	for index := range length {
 		value := thisObject.get(arrayIndexToString(index))
 		stringValue := ""
@@ -176,14 +180,15 @@ func builtinArraySplice(call FunctionCall) Value {
 	} else if arg, ok := call.getArgument(1); ok {
 		deleteCount = valueToRangeIndex(arg, length-start, true)
 	}
-	valueArray := make([]Value, deleteCount)
+	// grows with the iteration (see builtinArrayMap)
+	valueArray := make([]Value, 0, min(deleteCount, 1<<10))
 
 	for index := range deleteCount {
 		indexString := arrayIndexToString(start + index)
 		if thisObject.hasProperty(indexString) {
-			valueArray[index] = thisObject.get(indexString)
+			valueArray = append(valueArray, thisObject.get(indexString))
 		} else {
-			valueArray[index] = emptyValue
+			valueArray = append(valueArray, emptyValue)
 		}
 	}
 
@@ -260,14 +265,15 @@ func builtinArraySlice(call FunctionCall) Value {
 		return objectValue(call.runtime.newArray(0))
 	}
 	sliceLength := end - start
-	sliceValueArray := make([]Value, sliceLength)
+	// grows with the iteration (see builtinArrayMap)
+	sliceValueArray := make([]Value, 0, min(sliceLength, 1<<10))
 
 	for index := range sliceLength {
 		from := arrayIndexToString(index + start)
 		if thisObject.hasProperty(from) {
-			sliceValueArray[index] = thisObject.get(from)
+			sliceValueArray = append(sliceValueArray, thisObject.get(from))
 		} else {
-			sliceValueArray[index] = emptyValue
+			sliceValueArray = append(sliceValueArray, emptyValue)
 		}
 	}
 
